@@ -135,6 +135,15 @@ def module_resolver(idx: Index, relpath: str):
                     else:
                         methods[mn] = m.node
             return ClassVal(r.name, methods, props, home=r.module.relpath, method_home=homes)
+        if isinstance(r, tuple) and r and r[0] == "value":
+            # module-level constant: literal containers / numbers / strings only
+            import ast as _ast
+            node = r[2]
+            try:
+                v = _ast.literal_eval(node)
+                return frozenset(v) if isinstance(v, set) else v
+            except Exception:
+                return None
         return None
     return resolve
 
